@@ -5,6 +5,7 @@ import ast
 import re
 
 from vk import astx
+from vk.report import shape_rule
 from vk.algebra import Normalizer, bool_key, literals, spec_rat, NotClosedForm
 from vk.loader import AnalysisError
 
